@@ -2,10 +2,13 @@
 
 Theorems (lean/CffiVerif/Props/C35.lean): every_token_exactly_once,
 macro_split_first_eq, merge_is_concat_in_call_order, error_iff_fail,
-result_is_concat_over_libs over the model of src/cffi/pkgconfig.py
+result_is_concat_over_libs, model_is_the_translated_source over the model of src/cffi/pkgconfig.py
 (lean/CffiVerif/Model/PkgConfig.lean).
 
-Tie to the code: a stub `pkg-config` (csrc/pkgconfig_stub_C35.c compiled into
+Tie to the code: translate/c35_py.py re-translates the getters, `_macro`, the
+`kwargs` dict and the loop body of `merge_flags` from pkgconfig.py into
+Generated/PkgConfigPy.lean on every run (it raises when a function changes
+shape); `model_is_the_translated_source` proves the model equal to it.  A stub `pkg-config` (csrc/pkgconfig_stub_C35.c compiled into
 ctx.scratch, first on PATH) replays, per library name and flag, a recorded byte string and exit
 status; `cffi.pkgconfig.flags_from_pkgconfig` runs in-process against it and its
 result (or the PkgConfigError) is compared
@@ -58,6 +61,12 @@ def cps(s):
 
 def hx(b):
     return b.hex() or "-"
+
+
+def translators(ctx):
+    sys.path.insert(0, os.path.join(common.VERIF, "translate"))
+    import c35_py
+    return [c35_py.run]
 
 
 # ------------------------------------------------------------------ generators
